@@ -1,0 +1,62 @@
+//! Verification hooks. Only compiled with `--cfg tiny_http_verif`; never part of a normal build.
+//!
+//! * a failpoint registry: `point(id, a, b)` is a no-op until a hook is installed with
+//!   `set_hook`; the library calls it at a few places *between* critical sections,
+//! * re-exports of otherwise private components so that an external harness can drive them
+//!   with in-memory I/O (e.g. under Miri).
+
+use std::sync::atomic::{AtomicBool, Ordering};
+use std::sync::{Arc, RwLock};
+
+pub use crate::request::{new_request, RequestCreationError};
+pub use crate::util::{
+    EqualReader, FusedReader, MessagesQueue, SequentialReader, SequentialReaderBuilder,
+    SequentialWriter, SequentialWriterBuilder, TaskPool,
+};
+
+/// `(failpoint id, a, b)`; the meaning of `a` and `b` depends on the failpoint.
+pub type Hook = Arc<dyn Fn(u32, usize, usize) + Send + Sync>;
+
+static ENABLED: AtomicBool = AtomicBool::new(false);
+static HOOK: RwLock<Option<Hook>> = RwLock::new(None);
+
+/// sequential.rs: a writer obtained its turn, socket mutex not yet taken (a: 0 = write, 1 = flush)
+pub const FP_SEQW_TURN: u32 = 1;
+/// request.rs: response printed into the buffered writer, not yet flushed
+pub const FP_RESPOND_PRE_FLUSH: u32 = 2;
+/// sequential.rs: a reader is about to hand the socket reader to its successor
+pub const FP_READER_HANDOFF: u32 = 3;
+/// lib.rs: connection thread parsed a request and is about to push it to the queue
+pub const FP_CONN_PRE_PUSH: u32 = 4;
+/// lib.rs: accept() returned a connection, not yet given to the pool
+pub const FP_ACCEPTED: u32 = 5;
+/// task_pool.rs: first line of `spawn`, lock not yet taken
+pub const FP_POOL_SPAWN: u32 = 6;
+/// task_pool.rs: top of the worker loop, no lock held
+pub const FP_POOL_WORKER_LOOP: u32 = 7;
+/// refined_tcp_stream.rs: a socket read returned (a: peer port or 0, b: bytes read, usize::MAX on error)
+pub const FP_SOCK_READ: u32 = 8;
+
+/// Installs (or removes) the failpoint hook.
+pub fn set_hook(hook: Option<Hook>) {
+    let mut slot = HOOK.write().unwrap();
+    ENABLED.store(hook.is_some(), Ordering::SeqCst);
+    *slot = hook;
+}
+
+#[inline]
+pub fn enabled() -> bool {
+    ENABLED.load(Ordering::Relaxed)
+}
+
+/// Reached a failpoint. The hook is called without any verif lock held.
+#[inline]
+pub fn point(id: u32, a: usize, b: usize) {
+    if !enabled() {
+        return;
+    }
+    let hook = HOOK.read().unwrap().clone();
+    if let Some(hook) = hook {
+        hook(id, a, b);
+    }
+}
